@@ -64,6 +64,33 @@ claim("C15", "proof",
       "kept (flatMap), all-covering lists fail. Direct oracle: -m B vs the rewritten list, on the implementation, in -f/--json/-l with -j/-r.",
       TIE, "Lean 4 theorems (arithmetic of ranges) + metamorphic oracle", "§4 C15")
 
+claim("C06", "proof",
+      "Theorem readAndCutBytes_eq_spec: for EVERY byte string and every bounds list with non-zero indexes the model of read_and_cut_bytes equals the "
+      "specification (fillers verbatim, each bound = data[lo-1..hi] or its fallback rule, nothing appended, empty input ⇒ empty output), and never "
+      "panics. Direct oracle: implementation vs executed specification, exhaustive small alphabets incl. NUL/LF/0xFF + large random inputs.",
+      TIE, "Lean 4 refinement theorem (engine = abstract spec) + differential correspondence", "§4 C06")
+claim("C07", "proof",
+      "Theorems (31): utf8 segmentation loses/splits nothing (flatten), every piece is exactly one well-formed scalar of 1-4 bytes, any selection/"
+      "reordering of characters of valid text is valid UTF-8 decoding to exactly those characters, fuel adequacy; engine link: in character mode the "
+      "field vector of cut_str is exactly the list of scalar ranges (cutStrCore_chars), slices of ranges never split a character and never panic. "
+      "Direct oracle: implementation (with the real regex \\b|\\B) vs executed spec; output decodes as UTF-8.",
+      TIE + " The regex engine's behaviour for \\b|\\B (a match at every scalar boundary of valid UTF-8) is modelled and validated by the correspondence, not proved.",
+      "Lean 4 theorems (induction over the UTF-8 decoder, refinement of the character-mode field vector) + differential correspondence", "§4 C07")
+claim("C08", "proof",
+      "Theorems (32): an independent strict RFC 8259 reader for arrays of strings is defined in Lean; jsonDecodeString (jsonString s ++ rest) = (s, rest) "
+      "for EVERY byte string; json_array_roundtrip for every list of parts; no raw control byte in the output (one record = one line); shape of the "
+      "engine's output loop under --json (emitRecord_json_decodes). Direct oracle: every output line parsed by python's strict json and compared "
+      "element-wise with an independent selection.",
+      TIE + " serde_json's escaping table is modelled (jsonEscapeByte) and validated by the correspondence.",
+      "Lean 4 round-trip theorem (encoder/decoder, induction + case split per escape class) + independent JSON reader oracle", "§4 C08")
+claim("C19", "proof",
+      "Theorems over the whole option-set space (case analysis, not enumeration): decision f = reject ⇔ conflict f (the statement's list, clause by "
+      "clause); accepted ⇔ no conflict; failFirst ⇔ -e with -j/-p and neither -r nor --json; implied join; engine choice; -z/--fallback-oob never "
+      "matter. Correspondence: the REAL binary run on the option sets (quick: seeded sample of 20 000 sets × 2 probes + re-orderings; thorough: all "
+      "2.6 M sets), status/stdout against the model's decision and against the statement.",
+      TIE + " argv → option set is pico_args (trusted). Don't-cares: -l with -e; default bounds with -m (data-dependent failure, C15).",
+      "Lean 4 decision-table theorem (cases + grind) + exhaustive CLI correspondence", "§4 C19")
+
 NOT_YET = "check under construction in this session (model, harness and driver exist; the property's check is not registered yet)"
 
 
